@@ -102,6 +102,7 @@ def extreme_probe(ctx, n: int) -> None:
 def run(ctx) -> None:
     import context_probes as CP
     CP.diag_history_probe(ctx, "C11", ctx.n(12, 300))
+    CP.merged_readings_probe(ctx, "C11", ctx.n(8, 200))
     extreme_probe(ctx, ctx.n(30, 600))
     run_screen_correspondence(ctx, "C11", ctx.n(40, 500))
     if F is not None:
@@ -109,6 +110,9 @@ def run(ctx) -> None:
 
 
 def corpus_case(ctx, r: dict) -> None:
+    if r.get("kind") == "merged_readings":
+        import context_probes as CP
+        return CP.merged_readings_case(ctx.report, "C11", r)
     if r.get("kind") == "diag_history":
         import context_probes as CP
         return CP.diag_history_case(ctx.report, "C11", r)
